@@ -8,8 +8,10 @@ checks (default: the property itself), quick tier, seeds 0 and 1.  Writes /verif
 import json, os, shutil, subprocess, sys, time
 ID, n = sys.argv[1], sys.argv[2]
 checks = sys.argv[3:] or [ID]
-wt = f"/tmp/seed/{ID}"
-out = f"/tmp/seed/{ID}/out"
+ROOT = os.environ.get("SEED_ROOT", "/tmp/seed")
+OFF = int(os.environ.get("SEED_OFFSET", "0"))      # round 2: SEED_ROOT=/tmp/seed2 SEED_OFFSET=2
+wt = f"{ROOT}/{ID}"
+out = f"{ROOT}/{ID}/out"
 V = "/verif"
 def sh(cmd, **kw):
     return subprocess.run(cmd, shell=True, capture_output=True, text=True, **kw)
@@ -34,7 +36,7 @@ for c in checks:
 sh(f"git -C {wt} checkout -- . ")
 # restore Generated.lean / evidence to the /repo state
 sh(f"cd {V} && git checkout -- lean/OFCore/OFCore/Generated.lean evidence 2>/dev/null")
-d = f"{V}/seeded/{ID}-{n}"
+d = f"{V}/seeded/{ID}-{int(n) + OFF}"
 os.makedirs(d, exist_ok=True)
 shutil.copy(f"{out}/patch{n}.diff", f"{d}/patch.diff")
 shutil.copy(f"{out}/demo{n}.py", f"{d}/demo.py")
